@@ -87,6 +87,8 @@ def check_lists(ctx, lists, is_file):
             ctx.require("export names can be assigned", case, False, ie)
             continue
         en = ie[1]
+        if not ctx.require("every sibling is given an export name (a string)", case, all(isinstance(n, str) for n in en), [repr(n) for n in en]):
+            continue
         ctx.require("sibling export names pairwise distinct", case, len(set(en)) == len(en), en)
         bad = [n for n in en if not NC.component_ok(n + (".wav" if is_file else ""))]
         ctx.require("every path component is non-empty, safe characters only, starts with a word character, no trailing blank/dot", case, not bad, bad)
